@@ -206,3 +206,130 @@ func checkRequestProvenance(p *load.Program, r *kit.Report, rule string) {
 		r.Check(bad == "", rule, k.key("NodeManager.RequestTxs/batch"), posOf(p, c), "node.RequestTxs(GetTxRequests(node.id, …)) — same node, same iteration", bad)
 	}
 }
+
+// checkInsertAtomic: a fresh entry is put into a bucket's map (txMap.txs[txid] = …) in the same
+// write-locked critical section as the lookup that found no entry for that txid. With the lookup
+// under a read lock (or a release in between) two announcers of the same new tx both miss and both
+// insert — the tx is requested from two peers at once — and an announcement can overwrite the entry
+// an unsolicited delivery has just marked received, so the next delivery is processed again.
+func checkInsertAtomic(p *load.Program, r *kit.Report, rule string, txsF *types.Var) {
+	k := newKeyer()
+	n := 0
+	for _, f := range pkgFuncs(p, R) {
+		if strings.HasSuffix(p.FileOf(f.Pos()), "_test.go") {
+			continue
+		}
+		var li *kit.LockInfo
+		kit.AllInstrs(f, func(in ssa.Instruction) {
+			mu, ok := in.(*ssa.MapUpdate)
+			if !ok {
+				return
+			}
+			fl, base := kit.LoadedField(mu.Map)
+			if fl != txsF {
+				return
+			}
+			// Clean rebuilds the map wholesale (a new map, entries copied): not an insert by txid
+			if _, fresh := kit.Strip(mu.Map).(*ssa.MakeMap); fresh {
+				return
+			}
+			if li == nil {
+				li = kit.Lockset(f, entryLocks(p)[f])
+			}
+			n++
+			name := kit.ShortID(kit.FuncID(f))
+			key := li.Key(base) + ".RWMutex"
+			// the lookup of the same map that precedes the insert
+			var lookups []*ssa.Lookup
+			kit.AllInstrs(f, func(x ssa.Instruction) {
+				if lk, ok := x.(*ssa.Lookup); ok && lk.CommaOk {
+					if f2, b2 := kit.LoadedField(lk.X); f2 == txsF && li.Key(b2) == li.Key(base) {
+						lookups = append(lookups, lk)
+					}
+				}
+			})
+			bad := ""
+			if len(lookups) == 0 {
+				bad = "an entry is stored without a lookup of the same map in this function"
+			}
+			for _, lk := range lookups {
+				if !kit.Reach(f, kit.After(lk), kit.Opts{}).Has(mu) {
+					continue
+				}
+				if !li.Holds(lk, key, true) {
+					bad = "the lookup at " + posOf(p, lk) + " that decides `no entry yet` does not hold " + key + " in write mode (held: " + li.HeldAt(lk) + "): two announcers of the same new tx both miss and both insert"
+				}
+				for _, rel := range lockReleases(f, key) {
+					if kit.Reach(f, kit.After(lk), kit.Opts{StopAt: kit.InstrSet(mu)}).Has(rel) && kit.Reach(f, kit.After(rel), kit.Opts{}).Has(mu) {
+						bad = key + " is released at " + posOf(p, rel) + " between the lookup that found no entry and the insert: another goroutine can insert (or mark received) the same txid in between, and this insert overwrites it"
+					}
+				}
+			}
+			if bad == "" && !li.Holds(mu, key, true) {
+				bad = "the insert does not hold " + key + " in write mode"
+			}
+			r.Check(bad == "", rule, k.key(name+"/insert:txs"), posOf(p, mu), "lookup miss and insert are one write-locked critical section", bad)
+		})
+	}
+	if n < 2 {
+		r.Unknown(rule, "txMap.txs/inserts", "-", "expected at least 2 inserts into a bucket map (AddTxID, AddTx), found %d", n)
+	}
+}
+
+// checkSendTxDelivers: sendTx hands the tx to the processing thread or gives up only because the
+// caller is being interrupted; the timer arm of its select only logs. AddTx has already marked the
+// entry received, so a return on the timer arm drops the tx for good (never processed, never
+// requested again).
+func checkSendTxDelivers(p *load.Program, r *kit.Report, rule string) {
+	f := fn(p, r, rule, R, "TxManager.sendTx")
+	if f == nil {
+		return
+	}
+	chF := p.Field(R, "TxManager", "txChannel")
+	var intr *ssa.Parameter
+	for _, prm := range f.Params {
+		if _, ok := prm.Type().Underlying().(*types.Chan); ok {
+			intr = prm
+		}
+	}
+	// edges taken when the send happened or the interrupt fired
+	var done []kit.Edge
+	nSel := 0
+	kit.AllInstrs(f, func(in ssa.Instruction) {
+		sel, ok := in.(*ssa.Select)
+		if !ok {
+			return
+		}
+		nSel++
+		for i, st := range sel.States {
+			isSend := st.Dir == types.SendOnly && loadOfField(kit.Strip(st.Chan), chF)
+			isIntr := st.Dir == types.RecvOnly && intr != nil && kit.Strip(st.Chan) == ssa.Value(intr)
+			if isSend || isIntr {
+				done = append(done, selectArmEdges(sel, i)...)
+			}
+		}
+	})
+	// a plain blocking send also delivers
+	var sends []ssa.Instruction
+	kit.AllInstrs(f, func(in ssa.Instruction) {
+		if s, ok := in.(*ssa.Send); ok && loadOfField(kit.Strip(s.Chan), chF) {
+			sends = append(sends, in)
+		}
+	})
+	bad := ""
+	if nSel == 0 && len(sends) == 0 {
+		bad = "sendTx never sends on the tx channel"
+	}
+	pre := kit.Reach(f, []kit.Pt{kit.Entry(f)}, kit.Opts{BlockEdge: kit.EdgeSet(done...), StopAt: kit.InstrSet(sends...)})
+	for _, ret := range kit.Returns(f) {
+		if pre.Has(ret) {
+			// the channel may legitimately be unset (no processing thread): a nil test of the field
+			nilCh := nilTestOfField(f, chF)
+			if d, _ := kit.DominatedByEdges(f, ret, edgesOf(nilCh, true), nil, p.Pos); d && len(nilCh) > 0 {
+				continue
+			}
+			bad = "sendTx can return (" + posOf(p, ret) + ") without having sent the tx and without being interrupted (" + pre.PathTo(ret, p.Pos) + "): the entry is already marked received, so the tx is never processed and never requested again"
+		}
+	}
+	r.Check(bad == "", rule, "TxManager.sendTx/delivers-or-interrupted", posOf(p, f.Blocks[0].Instrs[0]), "every return is behind the send arm or the interrupt arm", bad)
+}
